@@ -583,7 +583,7 @@ func genCase(r *rand.Rand, maxPat, norders, npaths int) *Case {
 
 func run(m *mon.M) {
 	r := m.Rand("sets")
-	nsets := m.N(1500, 20000)
+	nsets := m.N(8000, 100000)
 	norders := m.N(4, 8)
 	for i := 0; i < nsets; i++ {
 		maxPat := 12
@@ -595,7 +595,7 @@ func run(m *mon.M) {
 		runCase(m, c)
 	}
 	// large tables
-	big := m.N(2, 12)
+	big := m.N(3, 30)
 	for i := 0; i < big; i++ {
 		size := 200 + r.Intn(m.N(400, 2800))
 		pats := genBigSet(r, size)
